@@ -173,6 +173,9 @@ func ConnectWithConfig(c *ConnConfig) (*Conn, error) {
 // Connは、iSCPのコネクションです。
 type Conn struct {
 	wireConnMu            sync.Mutex
+	redialMu              sync.Mutex
+	redialing             bool          // reconnect is running: it holds wireConnMu until it has a new wire connection or gives up
+	redialAttempt         chan struct{} // non-nil while a dial attempt of reconnect is in flight, closed when it ends
 	wireConn              *wire.ClientConn
 	downstreamIDGenerator *wire.AliasGenerator
 
@@ -644,7 +647,11 @@ func (c *Conn) observeConnClose(ctx context.Context) error {
 func (c *Conn) reconnect(ctx context.Context) error {
 	c.wireConnMu.Lock()
 	defer c.wireConnMu.Unlock()
+	// (raised before the state is looked at: a Close that finds the state already changed finds the flag as well)
+	c.setRedialing(true)
+	defer c.setRedialing(false)
 	if !c.state.CompareAndSwapNot(connStatusClosed, connStatusReconnecting) {
+		c.wireConn.Close() // a Close that saw the flag has left the wire connection to this function
 		return errors.ErrConnectionClosed
 	}
 	c.wireConn.Close()
@@ -662,7 +669,21 @@ func (c *Conn) reconnect(ctx context.Context) error {
 	retry.Do(func() (end bool) {
 		c.logger.Infof(ctx, "Try reconnecting...")
 
+		// no attempt begins once Close has changed the state (Close does not wait for the pauses between attempts)
+		c.redialMu.Lock()
+		if c.state.Is(connStatusClosed) {
+			c.redialMu.Unlock()
+			resErr = errors.ErrConnectionClosed
+			return true
+		}
+		attempt := make(chan struct{})
+		c.redialAttempt = attempt
+		c.redialMu.Unlock()
 		res, resErr = c.Config.connectWire()
+		c.redialMu.Lock()
+		c.redialAttempt = nil
+		c.redialMu.Unlock()
+		close(attempt)
 		if resErr != nil {
 			return c.state.Is(connStatusClosed)
 		}
@@ -682,6 +703,18 @@ func (c *Conn) reconnect(ctx context.Context) error {
 		panic(errors.Errorf("unexpected error: expected reconnecting but %v", c.state.current))
 	}
 	return nil
+}
+
+func (c *Conn) setRedialing(v bool) {
+	c.redialMu.Lock()
+	c.redialing = v
+	c.redialMu.Unlock()
+}
+
+func (c *Conn) redialState() (redialing bool, attempt <-chan struct{}) {
+	c.redialMu.Lock()
+	defer c.redialMu.Unlock()
+	return c.redialing, c.redialAttempt
 }
 
 func (c *Conn) saveAndClearAllUpstreams(ctx context.Context) {
@@ -720,6 +753,19 @@ func (c *Conn) close(ctx context.Context, msg *message.Disconnect) error {
 		c.saveAndClearAllDownstreams(ctx)
 	}
 
+	if redialing, attempt := c.redialState(); redialing {
+		// there is no wire connection to shut down and the redial holds the mutex for as long as it takes (attempts,
+		// the pauses between them, a handshake that is never answered); it gives up, or drops what it got, on the
+		// closed state. An attempt in flight is waited for, within ctx.
+		if attempt != nil {
+			select {
+			case <-attempt:
+			case <-ctx.Done():
+				return ctx.Err()
+			}
+		}
+		return nil
+	}
 	c.wireConnMu.Lock()
 	defer c.wireConnMu.Unlock()
 	if err := c.wireConn.SendDisconnect(ctx, msg); err != nil {
